@@ -39,9 +39,11 @@ func memproxyProbe(rep *Report, bin string) {
 		cmd := exec.Command(bin, args...)
 		cmd.Stdout, cmd.Stderr = nil, nil
 		must(cmd.Start())
+		exited := make(chan struct{})
+		go func() { cmd.Wait(); close(exited) }()
 		stop := func() {
 			cmd.Process.Kill()
-			cmd.Wait()
+			<-exited
 			l1.StopListening()
 			l2.StopListening()
 			l1.CloseAll()
@@ -53,16 +55,28 @@ func memproxyProbe(rep *Report, bin string) {
 			for i := 0; i < 300; i++ {
 				c, err = net.Dial("tcp", fmt.Sprintf("127.0.0.1:%d", port))
 				if err == nil {
-					break
+					return &Client{c: c, Proto: "bin"}
 				}
 				time.Sleep(10 * time.Millisecond)
 			}
-			must(err)
-			return &Client{c: c, Proto: "bin"}
+			return nil
 		}
 		replay := map[string]interface{}{"memproxy_args": args, "mode": mode}
 		fail := func(sig, what string) {
 			rep.Violations = append(rep.Violations, Violation{What: "real memproxy binary (" + mode + " mode): " + what, Signature: sig, Replay: replay})
+		}
+		if probe := dial(p); probe == nil {
+			select {
+			case <-exited:
+				fail("memproxy-exited", "the program exited at start-up")
+			default:
+				// the port was taken by somebody else between choosing it and memproxy's bind
+				rep.Distribution["memproxy-binary-probe-skipped"]++
+			}
+			stop()
+			continue
+		} else {
+			probe.Close()
 		}
 		key := []byte("shared-key")
 		setup := dial(p)
